@@ -241,6 +241,7 @@ Definition send_waits (s : rstate) (t c : N) (expired : bool) : bool :=
   match aget c (ctxs s) with
   | Some x =>
     (match c_sendMsg x with Some (t', _) => t' =? t | None => false end)
+    && c_queued x    (* repaired SendMsg: no longer queued with the message still ours = canceled by a Recv timeout *)
     && negb expired && negb (c_closed x) && negb (c_fnp x && no_pipes s)
   | None => false
   end.
@@ -251,7 +252,7 @@ Definition recv_waits (s : rstate) (c id : N) : bool :=
   end.
 
 (* code after the wait loop of SendMsg *)
-Definition send_finish (s : rstate) (t c : N) : rstate :=
+Definition send_finish (s : rstate) (t c : N) (expired : bool) : rstate :=
   match aget c (ctxs s) with
   | Some x =>
     if (match c_sendMsg x with Some (t', _) => t' =? t | None => false end) then
@@ -259,7 +260,8 @@ Definition send_finish (s : rstate) (t c : N) : rstate :=
       match aget c (ctxs s) with
       | Some x =>
         let s := set_ctx s c (with_ctx x 0 (c_reqMsg x) (c_repMsg x) None (c_lastPipe x) (c_queued x)) in
-        emit s (ORet t (RErr (if c_closed x then EClosed else if c_fnp x && no_pipes s then ENoPeers else ESendTimeout)))
+        emit s (ORet t (RErr (if c_closed x then EClosed else if c_fnp x && no_pipes s then ENoPeers
+                              else if expired then ESendTimeout else ECanceled)))
       | None => s
       end
     else emit s (ORet t ROk)
@@ -303,7 +305,7 @@ Fixpoint settle (fixed : bool) (fuel : nat) (s : rstate) : rstate :=
   | S f =>
     match pick_thread s [] (threads s) with
     | None => s
-    | Some (TSend t c e, rest) => settle fixed f (send_finish (upd_threads s rest) t c)
+    | Some (TSend t c e, rest) => settle fixed f (send_finish (upd_threads s rest) t c e)
     | Some (TRecv t c id e, rest) => settle fixed f (recv_finish fixed (upd_threads s rest) t c id e)
     end
   end.
